@@ -89,11 +89,15 @@ theorem push_reject (l : Lang) (s : Scanner) (pos : Nat) (D : DS) (q : List Word
     refine ⟨_, rfl, ?_⟩
     rcases hx with hx | hx
     · rw [hr] at hx; cases hx
-    · show SQ (Scanner.outside _ _ _) _ _
-      unfold Scanner.outside
-      split
-      · exact ⟨rfl, t1, hq'⟩
-      · exact ⟨rfl, t1, hq'⟩
+    · -- `Incomplete` on the fresh parser leaves the scanner as it is; any other error goes through `outside`
+      cases e with
+      | incomplete => exact ⟨rfl, t1, hq'⟩
+      | overlap | nan | frozen =>
+        show SQ (Scanner.outside _ _ _) _ _
+        unfold Scanner.outside
+        split
+        · exact ⟨rfl, t1, hq'⟩
+        · exact ⟨rfl, t1, hq'⟩
 
 /-- end of the input while the number `D` is open -/
 theorem finalize_open (l : Lang) (s : Scanner) (D : DS) (q : List Word) (text : Word) (val : Value) (hs : SQ s D q)
